@@ -38,6 +38,38 @@ FUNCTIONS = ["gffutils.create:create_db", "gffutils.create:_DBCreator.__init__",
                                                               "create_splice_sites", "merge", "children_bp", "bed12")]
 
 
+def _replay_force(force, existing, state):
+    import tempfile, os, shutil
+    d = tempfile.mkdtemp()
+    try:
+        dbfn = os.path.join(d, "x.db")
+        old = "##gff-version 3\n##species old\nold\t.\tgene\t1\t5\t.\t+\t.\tID=oldgene\nold\t.\texon\t1\t5\t.\t+\t.\tParent=oldgene\n"
+        new = [F.Feature(seqid="new", featuretype="gene", start=1, end=5, attributes={"ID": ["newgene"]})]
+        if existing:
+            odb = gffutils.create_db(old, dbfn, from_string=True)
+            if state == "emptied":
+                odb.delete(list(odb.all_features()), make_backup=False)
+            odb.conn.close()
+            before = open(dbfn, "rb").read()
+        try:
+            db = gffutils.create_db(new, dbfn, force=force)
+            raised = False
+        except Exception as e:
+            raised = True
+        if existing and not force:
+            same = open(dbfn, "rb").read() == before
+            bad = (not raised) or not same
+            obs = "raised=%s, file unchanged=%s" % (raised, same)
+        else:
+            rdb = gffutils.FeatureDB(dbfn)
+            ids = [f.id for f in rdb.all_features()]
+            bad = raised or ids != ["newgene"] or list(rdb.directives) != []
+            obs = "raised=%s ids=%r directives=%r" % (raised, ids, list(rdb.directives))
+        return {"inputs": {"force": force, "existing": existing, "existing_state": state}, "observed": obs, "violates": bad}
+    finally:
+        shutil.rmtree(d, ignore_errors=True)
+
+
 def unit_force(U):
     for force in (False, True):
         for existing in (False, True):
@@ -46,30 +78,14 @@ def unit_force(U):
             base = "C19.create_db[force=%s,existing=%s]" % (force, existing)
 
             def replay(m, force=force, existing=existing):
-                import tempfile, os, shutil
-                d = tempfile.mkdtemp()
-                try:
-                    dbfn = os.path.join(d, "x.db")
-                    old = [F.Feature(seqid="old", featuretype="gene", start=1, end=5, attributes={"ID": ["oldgene"]})]
-                    new = [F.Feature(seqid="new", featuretype="gene", start=1, end=5, attributes={"ID": ["newgene"]})]
-                    if existing:
-                        gffutils.create_db(old, dbfn)
-                        before = open(dbfn, "rb").read()
-                    try:
-                        db = gffutils.create_db(new, dbfn, force=force)
-                        raised = False
-                    except Exception as e:
-                        raised = True
-                    if existing and not force:
-                        bad = (not raised) or open(dbfn, "rb").read() != before
-                        obs = "raised=%s, file unchanged=%s" % (raised, open(dbfn, "rb").read() == before)
-                    else:
-                        ids = [f.id for f in gffutils.FeatureDB(dbfn).all_features()]
-                        bad = raised or ids != ["newgene"]
-                        obs = "raised=%s ids=%r" % (raised, ids)
-                    return {"inputs": {"force": force, "existing": existing}, "observed": obs, "violates": bad}
-                finally:
-                    shutil.rmtree(d, ignore_errors=True)
+                # the existing database is tried in two states: holding features, and emptied by delete()
+                # (tables, directives and id counters present, zero feature rows)
+                last = None
+                for state in (("with-features", "emptied") if existing else ("absent",)):
+                    last = _replay_force(force, existing, state)
+                    if last.get("violates"):
+                        return last
+                return last
             for p in U.explore(run, it):
                 effs = p.ctx.effects
                 kinds = [e[0] for e in effs]
@@ -82,10 +98,14 @@ def unit_force(U):
                     U.prove(base + ".refuse#p%d" % p.index, "existing database, force=False ==> raises; no unlink; schema creation is the first content-affecting statement and fails before any row is written",
                             [], z3.BoolVal(bool(ok)), {}, replay=replay)
                 else:
-                    first_connect = kinds.index("connect") if "connect" in kinds else -1
+                    # the connection the schema is created on: the last one opened before the first content-affecting statement
+                    first_content = min([i for i, e in enumerate(effs) if e[0] in ("execute", "executemany", "executescript")
+                                         and IM.classify([e])[0].kind in ("insert", "update", "delete", "script")] or [len(effs)])
+                    conns = [i for i, e in enumerate(effs) if e[0] == "connect" and i < first_content]
+                    first_connect = conns[-1] if conns else -1
                     if force and existing:
                         ok = p.kind == "return" and len(unlinks) == 1 and effs.index(unlinks[0]) < first_connect
-                        text = "force=True on an existing file ==> the file is unlinked before the connection is opened (all tables start empty)"
+                        text = "force=True on an existing file ==> the file is unlinked before the connection the schema is created on is opened (all tables start empty)"
                     else:
                         ok = p.kind == "return" and not unlinks
                         text = "no existing file ==> nothing is unlinked"
